@@ -28,8 +28,6 @@ theorem infoOK_iff (env : Env A) (M : Mat A) (n : Nat) :
   intro _ _ _
   exact ⟨fun h i j hi hj => h i hi j hj, fun h i hi j hj => h i j hi hj⟩
 
-theorem mem_T (t : Str) (h : t ∈ T.all) : t ∈ T.all := h
-
 theorem len2 (xs : List A) (h : xs.length = 2) : ∃ a b, xs = [a, b] := by
   match xs, h with
   | [a, b], _ => exact ⟨a, b, rfl⟩
@@ -116,5 +114,266 @@ theorem param_rt (env : Env A) (params : List (Param A)) (p : Param A) (h : para
     have : canonParam env ⟨.se3offset, id, ⟨.se3, [a0, a1, a2, a3, a4, a5, a6]⟩⟩ = ⟨.se3offset, id, ⟨.se3, [a0, a1, a2, a3, a4, a5, a6]⟩⟩ := by simp [canonParam, canonPose]
     rw [this]
     exact line_faithful_PARAMS_SE3OFFSET env [] params _ _ _ id a0 a1 a2 a3 a4 a5 a6 [] (startsWith_fmtLine _ _) (numbersOf_fmtLine _ _ htok) (floats_map env _ hx) hid.1 rfl
+
+theorem lenTwo {α : Type} (xs : List α) (h : xs.length = 2) : ∃ a b, xs = [a, b] := by
+  match xs, h with
+  | [a, b], _ => exact ⟨a, b, rfl⟩
+
+theorem kindAt_zero (g : Graph A) (i0 i1 : Int) (info : Mat A) (body : EdgeBody A) (k : PoseKind)
+    (h : kindAt g ⟨[i0, i1], info, body⟩ 0 = some k) : ∃ v0, lookupVertex g.vertices i0 = some v0 ∧ v0.pose.kind = k := by
+  simp only [kindAt, List.getElem?_cons_zero, Option.bind_some, Option.map_eq_some_iff] at h
+  exact h
+
+theorem triu3 : triuPairs 3 = [(0,0),(0,1),(0,2),(1,1),(1,2),(2,2)] := by decide
+theorem triu2 : triuPairs 2 = [(0,0),(0,1),(1,1)] := by decide
+
+theorem info_rt (env : Env A) (M : Mat A) (n : Nat) (h : infoOK env M n = true) :
+    let tri := (triuPairs n).map fun p => entry env.zero M p.1 p.2
+    fmtInfo env M n = .ok (tri.map env.fmtF) ∧ (∀ a ∈ tri, GoodF env a) ∧ expandTriu env.zero n tri = .ok M := by
+  obtain ⟨hsq, hsym, hgood⟩ := (infoOK_iff env M n).mp h
+  refine ⟨fmtInfo_ok env M n hsq, ?_, ?_⟩
+  · intro a ha
+    simp only [List.mem_map] at ha
+    obtain ⟨p, hp, rfl⟩ := ha
+    have hp' := (mem_triuPairs n p.1 p.2).mp hp
+    have hi : p.1 < M.length := by rw [hsq.1]; omega
+    have hrow : (M[p.1]).length = n := hsq.2 _ (List.getElem_mem hi)
+    have hj : p.2 < (M[p.1]).length := by omega
+    have : entry env.zero M p.1 p.2 = (M[p.1])[p.2] := by
+      simp [entry, List.getD_eq_getElem?_getD, List.getElem?_eq_getElem hi, List.getElem?_eq_getElem hj]
+    rw [this]
+    exact hgood _ (List.getElem_mem hi) _ (List.getElem_mem hj)
+  · rw [expandTriu_exact _ _ _ (by simp), (fullOfTriu_triu_iff env.zero M n hsq).mpr hsym]
+
+theorem kindAt_one (g : Graph A) (i0 i1 : Int) (info : Mat A) (body : EdgeBody A) (k : PoseKind)
+    (h : kindAt g ⟨[i0, i1], info, body⟩ 1 = some k) : ∃ v1, lookupVertex g.vertices i1 = some v1 ∧ v1.pose.kind = k := by
+  simp only [kindAt, List.getElem?_cons_succ, List.getElem?_cons_zero, Option.bind_some, Option.map_eq_some_iff] at h
+  exact h
+
+theorem canonPose_of_ne_se2 (env : Env A) (p : Pose A) (h : p.kind ≠ .se2) : canonPose env p = p := by
+  obtain ⟨k, xs⟩ := p
+  cases k <;> simp_all [canonPose]
+
+theorem lookupParam_map_canon (env : Env A) (ps : List (Param A)) (k : ParamKind) (z : Int) :
+    lookupParam (ps.map (canonParam env)) k z = (lookupParam ps k z).map (canonParam env) := by
+  unfold lookupParam
+  rw [List.find?_map]
+  rfl
+
+theorem lookupParam_mem (ps : List (Param A)) (k : ParamKind) (z : Int) (p : Param A) (h : lookupParam ps k z = some p) :
+    p ∈ ps ∧ p.kind = k ∧ p.id = z := by
+  unfold lookupParam at h
+  have h1 := List.mem_of_find?_eq_some h
+  have h2 := List.find?_some h
+  simp only [Bool.and_eq_true, beq_iff_eq] at h2
+  exact ⟨h1, h2.1, h2.2⟩
+
+theorem edge_fields_tok (env : Env A) (i0 i1 : Int) (xs tri : List A) (h0 : GoodI env i0) (h1 : GoodI env i1)
+    (hx : ∀ a ∈ xs, GoodF env a) (ht : ∀ a ∈ tri, GoodF env a) :
+    ∀ t ∈ [env.fmtI i0, env.fmtI i1] ++ xs.map env.fmtF ++ tri.map env.fmtF, TokOK t := by
+  intro t ht'
+  simp only [List.mem_append, List.mem_cons, List.mem_map, List.not_mem_nil, or_false] at ht'
+  rcases ht' with (((rfl | rfl) | ⟨a, ha, rfl⟩) | ⟨a, ha, rfl⟩)
+  · exact h0.2
+  · exact h1.2
+  · exact (hx a ha).2
+  · exact (ht a ha).2
+
+theorem edge_rt_odo_se2 (env : Env A) (g : Graph A) (i0 i1 : Int) (info : Mat A) (est : Pose A)
+    (h : edgeOK env g ⟨[i0, i1], info, .odometry est⟩ = true) (hk : kindAt g ⟨[i0, i1], info, .odometry est⟩ 0 = some .se2) :
+    ∃ line, Edge.write env g.vertices ⟨[i0, i1], info, .odometry est⟩ = .ok line ∧
+      RT env (g.params.map (canonParam env)) line (.edge (canonEdge env g.params ⟨[i0, i1], info, .odometry est⟩)) := by
+  simp only [edgeOK, Bool.and_eq_true, decide_eq_true_eq, List.all_cons, List.all_nil, Bool.and_true, hk, beq_iff_eq] at h
+  obtain ⟨⟨_, hi0, hi1⟩, ⟨⟨⟨_, _⟩, hek⟩, hp⟩, hinfo⟩ := h
+  have hek' : est.kind = .se2 := by simpa using hek
+  obtain ⟨v0, hv0, hv0k⟩ := kindAt_zero g i0 i1 info _ _ hk
+  obtain ⟨_, hlen, hx⟩ := (poseOK_iff env _).mp hp
+  obtain ⟨ek, xs⟩ := est
+  simp only at hek' hlen hx
+  subst hek'
+  obtain ⟨x, y, t, rfl⟩ := len3 xs hlen
+  simp only [PoseKind.compactDim] at hinfo
+  obtain ⟨hfi, htg, hex⟩ := info_rt env info 3 hinfo
+  let tri := (triuPairs 3).map fun p => entry env.zero info p.1 p.2
+  have htok := edge_fields_tok env i0 i1 [x, y, t] tri hi0 hi1 hx htg
+  refine ⟨fmtLine T.edgeSE2 ([env.fmtI i0, env.fmtI i1] ++ [x, y, t].map env.fmtF ++ tri.map env.fmtF), ?_, ?_⟩
+  · rw [← fmtEdgeLine_eq _ _ _ (by simp) (by simp [tri, triu3])]
+    simp [Edge.write, Edge.kind0, hv0, hv0k, Edge.toG2O, fmtIds_ok env [i0, i1] 2 rfl, fmtEntries_ok env [x, y, t] 3 rfl, hfi, tri]
+  · refine ⟨fmtLine_clean _ _ (tags_clean _ (by simp [T.all])) htok, isBlank_fmtLine _ _ (by simp [T.all]), ?_⟩
+    have : canonEdge env g.params ⟨[i0, i1], info, .odometry ⟨.se2, [x, y, t]⟩⟩ = ⟨[i0, i1], info, .odometry ⟨.se2, [x, y, env.wrap t]⟩⟩ := by
+      simp [canonEdge, canonPose]
+    rw [this]
+    exact line_faithful_EDGE_SE2 env [] _ _ _ _ (([x, y, t] ++ tri).map env.fmtF) i0 i1 x y t tri info (startsWith_fmtLine _ _)
+      (by rw [numbersOf_fmtLine _ _ htok]; simp) (floats_map env _ (by intro a ha; rcases List.mem_append.mp ha with h | h; exact hx a h; exact htg a h)) hi0.1 hi1.1 hex rfl
+
+
+theorem triuPairs_ne_nil (n : Nat) (h : 0 < n) : triuPairs n ≠ [] :=
+  List.ne_nil_of_mem ((mem_triuPairs n 0 0).mpr ⟨Nat.le_refl 0, h⟩)
+
+theorem edge_rt_odo_se3 (env : Env A) (g : Graph A) (i0 i1 : Int) (info : Mat A) (est : Pose A)
+    (h : edgeOK env g ⟨[i0, i1], info, .odometry est⟩ = true) (hk : kindAt g ⟨[i0, i1], info, .odometry est⟩ 0 = some .se3) :
+    ∃ line, Edge.write env g.vertices ⟨[i0, i1], info, .odometry est⟩ = .ok line ∧
+      RT env (g.params.map (canonParam env)) line (.edge (canonEdge env g.params ⟨[i0, i1], info, .odometry est⟩)) := by
+  simp only [edgeOK, Bool.and_eq_true, decide_eq_true_eq, List.all_cons, List.all_nil, Bool.and_true, hk, beq_iff_eq] at h
+  obtain ⟨⟨_, hi0, hi1⟩, ⟨⟨⟨_, _⟩, hek⟩, hp⟩, hinfo⟩ := h
+  have hek' : est.kind = .se3 := by simpa using hek
+  obtain ⟨v0, hv0, hv0k⟩ := kindAt_zero g i0 i1 info _ _ hk
+  obtain ⟨_, hlen, hx⟩ := (poseOK_iff env _).mp hp
+  obtain ⟨ek, xs⟩ := est
+  simp only at hek' hlen hx
+  subst hek'
+  obtain ⟨a0, a1, a2, a3, a4, a5, a6, rfl⟩ := len7 xs hlen
+  simp only [PoseKind.compactDim] at hinfo
+  obtain ⟨hfi, htg, hex⟩ := info_rt env info 6 hinfo
+  let tri := (triuPairs 6).map fun p => entry env.zero info p.1 p.2
+  have htok := edge_fields_tok env i0 i1 [a0, a1, a2, a3, a4, a5, a6] tri hi0 hi1 hx htg
+  refine ⟨fmtLine T.edgeSE3 ([env.fmtI i0, env.fmtI i1] ++ [a0, a1, a2, a3, a4, a5, a6].map env.fmtF ++ tri.map env.fmtF), ?_, ?_⟩
+  · rw [← fmtEdgeLine_eq _ _ _ (by simp) (by simpa [tri] using triuPairs_ne_nil 6 (by decide))]
+    simp [Edge.write, Edge.kind0, hv0, hv0k, Edge.toG2O, fmtIds_ok env [i0, i1] 2 rfl, fmtEntries_ok env [a0, a1, a2, a3, a4, a5, a6] 7 rfl, hfi, tri]
+  · refine ⟨fmtLine_clean _ _ (tags_clean _ (by simp [T.all])) htok, isBlank_fmtLine _ _ (by simp [T.all]), ?_⟩
+    have : canonEdge env g.params ⟨[i0, i1], info, .odometry ⟨.se3, [a0, a1, a2, a3, a4, a5, a6]⟩⟩
+        = ⟨[i0, i1], info, .odometry ⟨.se3, a0 :: a1 :: a2 :: env.normQ a3 a4 a5 a6⟩⟩ := by
+      simp [canonEdge, normalizeSE3]
+    rw [this]
+    exact line_faithful_EDGE_SE3_QUAT env [] _ _ _ _ (([a0, a1, a2, a3, a4, a5, a6] ++ tri).map env.fmtF) i0 i1 a0 a1 a2 a3 a4 a5 a6 tri info
+      (startsWith_fmtLine _ _) (by rw [numbersOf_fmtLine _ _ htok]; simp)
+      (floats_map env _ (by intro a ha; rcases List.mem_append.mp ha with h | h; exact hx a h; exact htg a h)) hi0.1 hi1.1 hex rfl
+
+theorem edge_rt_lm_se2 (env : Env A) (g : Graph A) (i0 i1 : Int) (info : Mat A) (est off : Pose A) (oid : Option Int)
+    (h : edgeOK env g ⟨[i0, i1], info, .landmark est off oid⟩ = true)
+    (hk : kindAt g ⟨[i0, i1], info, .landmark est off oid⟩ 0 = some .se2) :
+    ∃ line, Edge.write env g.vertices ⟨[i0, i1], info, .landmark est off oid⟩ = .ok line ∧
+      RT env (g.params.map (canonParam env)) line (.edge (canonEdge env g.params ⟨[i0, i1], info, .landmark est off oid⟩)) := by
+  simp only [edgeOK, Bool.and_eq_true, decide_eq_true_eq, List.all_cons, List.all_nil, Bool.and_true, hk, beq_iff_eq,
+    Bool.or_eq_true, Option.some.injEq, reduceCtorEq, false_and, or_false, true_and] at h
+  obtain ⟨⟨_, hi0, hi1⟩, hp, ⟨⟨⟨⟨_, hek⟩, hok⟩, hid⟩, hinfo⟩⟩ := h
+  obtain ⟨v0, hv0, hv0k⟩ := kindAt_zero g i0 i1 info _ _ hk
+  obtain ⟨_, hlen, hx⟩ := (poseOK_iff env _).mp hp
+  obtain ⟨ek, xs⟩ := est
+  obtain ⟨ok, os⟩ := off
+  simp only at hek hok hlen hx hid
+  subst hek; subst hok
+  obtain ⟨a, b, rfl⟩ := len2 xs hlen
+  obtain ⟨hfi, htg, hex⟩ := info_rt env info 2 hinfo
+  let tri := (triuPairs 2).map fun p => entry env.zero info p.1 p.2
+  have htok := edge_fields_tok env i0 i1 [a, b] tri hi0 hi1 hx htg
+  refine ⟨fmtLine T.edgeSE2XY ([env.fmtI i0, env.fmtI i1] ++ [a, b].map env.fmtF ++ tri.map env.fmtF), ?_, ?_⟩
+  · rw [← fmtEdgeLine_eq _ _ _ (by simp) (by simpa [tri] using triuPairs_ne_nil 2 (by decide))]
+    simp [Edge.write, Edge.kind0, hv0, hv0k, Edge.toG2O, hid, fmtIds_ok env [i0, i1] 2 rfl, fmtEntries_ok env [a, b] 2 rfl, hfi, tri]
+  · refine ⟨fmtLine_clean _ _ (tags_clean _ (by simp [T.all])) htok, isBlank_fmtLine _ _ (by simp [T.all]), ?_⟩
+    have : canonEdge env g.params ⟨[i0, i1], info, .landmark ⟨.r2, [a, b]⟩ ⟨.se2, os⟩ oid⟩
+        = ⟨[i0, i1], info, .landmark ⟨.r2, [a, b]⟩ ⟨.se2, identitySE2 env⟩ (some 0)⟩ := by
+      simp [canonEdge]
+    rw [this]
+    exact line_faithful_EDGE_SE2_XY env [] _ _ _ _ (([a, b] ++ tri).map env.fmtF) i0 i1 a b tri info
+      (startsWith_fmtLine _ _) (by rw [numbersOf_fmtLine _ _ htok]; simp)
+      (floats_map env _ (by intro a ha; rcases List.mem_append.mp ha with h | h; exact hx a h; exact htg a h)) hi0.1 hi1.1 hex rfl
+
+theorem edge_rt_lm_se3 (env : Env A) (g : Graph A) (i0 i1 : Int) (info : Mat A) (est off : Pose A) (oid : Option Int)
+    (hps : ∀ p ∈ g.params, paramOK env p = true)
+    (h : edgeOK env g ⟨[i0, i1], info, .landmark est off oid⟩ = true)
+    (hk : kindAt g ⟨[i0, i1], info, .landmark est off oid⟩ 0 = some .se3) :
+    ∃ line, Edge.write env g.vertices ⟨[i0, i1], info, .landmark est off oid⟩ = .ok line ∧
+      RT env (g.params.map (canonParam env)) line (.edge (canonEdge env g.params ⟨[i0, i1], info, .landmark est off oid⟩)) := by
+  simp only [edgeOK, Bool.and_eq_true, decide_eq_true_eq, List.all_cons, List.all_nil, Bool.and_true, hk, beq_iff_eq,
+    Bool.or_eq_true, Option.some.injEq, reduceCtorEq, false_and, false_or, true_and] at h
+  obtain ⟨⟨_, hi0, hi1⟩, hp, ⟨⟨⟨⟨_, hek⟩, hok⟩, hoid⟩, hinfo⟩⟩ := h
+  obtain ⟨v0, hv0, hv0k⟩ := kindAt_zero g i0 i1 info _ _ hk
+  obtain ⟨_, hlen, hx⟩ := (poseOK_iff env _).mp hp
+  obtain ⟨ek, xs⟩ := est
+  obtain ⟨ok, os⟩ := off
+  simp only at hek hok hlen hx
+  subst hek; subst hok
+  obtain ⟨a, b, c, rfl⟩ := len3 xs hlen
+  cases oid with
+  | none => simp at hoid
+  | some z =>
+    simp only [Bool.and_eq_true, decide_eq_true_eq] at hoid
+    obtain ⟨hz, hl⟩ := hoid
+    cases hlp : lookupParam g.params .se3offset z with
+    | none => simp [hlp] at hl
+    | some p =>
+      obtain ⟨hpm, hpk, _⟩ := lookupParam_mem _ _ _ _ hlp
+      have hpv : p.value.kind = .se3 := by
+        have := hps p hpm
+        simp only [paramOK, Bool.and_eq_true, hpk, beq_iff_eq] at this
+        exact this.2
+      have hcp : canonParam env p = p := by
+        obtain ⟨pk, pid, pv⟩ := p
+        simp only [canonParam]
+        rw [canonPose_of_ne_se2 env pv (by simp only at hpv; rw [hpv]; decide)]
+      obtain ⟨hfi, htg, hex⟩ := info_rt env info 3 hinfo
+      let tri := (triuPairs 3).map fun p => entry env.zero info p.1 p.2
+      have htok : ∀ t ∈ [env.fmtI i0, env.fmtI i1, env.fmtI z] ++ [a, b, c].map env.fmtF ++ tri.map env.fmtF, TokOK t := by
+        intro t ht'
+        simp only [List.mem_append, List.mem_cons, List.mem_map, List.not_mem_nil, or_false] at ht'
+        rcases ht' with (((rfl | rfl | rfl) | ⟨a, ha, rfl⟩) | ⟨a, ha, rfl⟩)
+        · exact hi0.2
+        · exact hi1.2
+        · exact hz.2
+        · exact (hx a (by simpa using ha)).2
+        · exact (htg a ha).2
+      refine ⟨fmtLine T.edgeSE3TrackXYZ ([env.fmtI i0, env.fmtI i1, env.fmtI z] ++ [a, b, c].map env.fmtF ++ tri.map env.fmtF), ?_, ?_⟩
+      · rw [← fmtEdgeLine_eq _ _ _ (by simp) (by simpa [tri] using triuPairs_ne_nil 3 (by decide))]
+        simp [Edge.write, Edge.kind0, hv0, hv0k, Edge.toG2O, fmtOffsetId, fmtIds_ok env [i0, i1] 2 rfl, fmtEntries_ok env [a, b, c] 3 rfl, hfi, tri]
+      · refine ⟨fmtLine_clean _ _ (tags_clean _ (by simp [T.all])) htok, isBlank_fmtLine _ _ (by simp [T.all]), ?_⟩
+        have : canonEdge env g.params ⟨[i0, i1], info, .landmark ⟨.r3, [a, b, c]⟩ ⟨.se3, os⟩ (some z)⟩
+            = ⟨[i0, i1], info, .landmark ⟨.r3, [a, b, c]⟩ p.value (some z)⟩ := by
+          simp [canonEdge, hlp]
+        rw [this]
+        exact line_faithful_EDGE_SE3_TRACKXYZ env [] _ _ _ _ _ (([a, b, c] ++ tri).map env.fmtF) i0 i1 z a b c tri info p
+          (startsWith_fmtLine _ _) (by rw [numbersOf_fmtLine _ _ htok]; simp)
+          (floats_map env _ (by intro a ha; rcases List.mem_append.mp ha with h | h; exact hx a h; exact htg a h)) hi0.1 hi1.1 hz.1
+          (by rw [lookupParam_map_canon, hlp, Option.map_some, hcp]) hex rfl
+
+/-- the pre-check of graph.py:534-538 accepts every expressible edge -/
+theorem preCheck_ok (env : Env A) (g : Graph A) (e : Edge A) (h : edgeOK env g e = true) : Edge.preCheck env g.params e = true := by
+  obtain ⟨ids, info, body⟩ := e
+  cases body with
+  | odometry est => rfl
+  | custom c est out => simp [edgeOK] at h
+  | landmark est off oid =>
+    simp only [edgeOK, Bool.and_eq_true, Bool.or_eq_true, beq_iff_eq, decide_eq_true_eq] at h
+    obtain ⟨_, _, h⟩ := h
+    rcases h with h | h
+    · have : off.kind = .se2 := h.1.1.2
+      simp [Edge.preCheck, this]
+    · have hk : off.kind = .se3 := h.1.1.2
+      have hm := h.1.2
+      cases oid with
+      | none => simp at hm
+      | some z =>
+        simp only [Bool.and_eq_true, decide_eq_true_eq] at hm
+        cases hlp : lookupParam g.params .se3offset z with
+        | none => simp [hlp] at hm
+        | some p => simpa [Edge.preCheck, hk, hlp] using hm.2
+
+/-- an edge -/
+theorem edge_rt (env : Env A) (g : Graph A) (e : Edge A) (hps : ∀ p ∈ g.params, paramOK env p = true) (h : edgeOK env g e = true) :
+    ∃ line, Edge.write env g.vertices e = .ok line ∧
+      RT env (g.params.map (canonParam env)) line (.edge (canonEdge env g.params e)) := by
+  obtain ⟨ids, info, body⟩ := e
+  have hlen : ids.length = 2 := by
+    simp only [edgeOK, Bool.and_eq_true, beq_iff_eq] at h
+    exact h.1.1
+  obtain ⟨i0, i1, rfl⟩ := lenTwo ids hlen
+  cases body with
+  | custom c est out => simp [edgeOK] at h
+  | odometry est =>
+    have hk : kindAt g ⟨[i0, i1], info, .odometry est⟩ 0 = some .se2 ∨ kindAt g ⟨[i0, i1], info, .odometry est⟩ 0 = some .se3 := by
+      simp only [edgeOK, Bool.and_eq_true, Bool.or_eq_true, beq_iff_eq] at h
+      exact h.2.1.1.1.1
+    rcases hk with hk | hk
+    · exact edge_rt_odo_se2 env g i0 i1 info est h hk
+    · exact edge_rt_odo_se3 env g i0 i1 info est h hk
+  | landmark est off oid =>
+    have hk : kindAt g ⟨[i0, i1], info, .landmark est off oid⟩ 0 = some .se2 ∨ kindAt g ⟨[i0, i1], info, .landmark est off oid⟩ 0 = some .se3 := by
+      simp only [edgeOK, Bool.and_eq_true, Bool.or_eq_true, beq_iff_eq] at h
+      rcases h.2.2 with h' | h'
+      · exact Or.inl h'.1.1.1.1.1
+      · exact Or.inr h'.1.1.1.1.1
+    rcases hk with hk | hk
+    · exact edge_rt_lm_se2 env g i0 i1 info est off oid h hk
+    · exact edge_rt_lm_se3 env g i0 i1 info est off oid hps h hk
 
 end GraphSlam.Props.C13
